@@ -244,7 +244,7 @@ impl Campaign for C06 {
     }
     fn runs(&self, tier: Tier) -> u64 {
         match tier {
-            Tier::Quick => 30_000,
+            Tier::Quick => 20_000,
             Tier::Thorough => 3_000_000,
         }
     }
